@@ -319,7 +319,7 @@ class FnTr:
                 return self.finish_init()
             raise Unsupported(f'`{self.inst.qual}`: control can fall off the end (returns None)')
         s, rest = stmts[0], stmts[1:]
-        if isinstance(s, ast.Pass):
+        if isinstance(s, (ast.Pass, ast.Import, ast.ImportFrom)):
             return self.block(rest)
         if isinstance(s, ast.Expr):
             if isinstance(s.value, ast.Constant):
@@ -366,6 +366,12 @@ class FnTr:
 
     def ret_value(self, e):
         # a call of a raising instance in return position is the result itself
+        if isinstance(e, ast.BoolOp) and self.inst.raises and self.inst.value_type == 'Bool' and not self.has_optional_test(e):
+            first, others = e.values[0], e.values[1:]
+            more = others[0] if len(others) == 1 else ast.BoolOp(op=e.op, values=others)
+            if isinstance(e.op, ast.Or):
+                return self.branch(first, lambda tr: tr.ok('true'), lambda tr: tr.ret_value(more))
+            return self.branch(first, lambda tr: tr.ret_value(more), lambda tr: tr.ok('false'))
         v = self.expr(e, allow_raise=True)
         want = self.inst.value_type
         if getattr(v, 'raises', False):
@@ -717,6 +723,24 @@ class FnTr:
             return self.attribute(e)
         if isinstance(e, ast.Compare):
             return self.compare(e)
+        if isinstance(e, ast.BoolOp):
+            # operands decided by the static types of this instance: `True and X` is `X`, `False and X` is `False` (X not evaluated)
+            keep, decided = [], None
+            for v in e.values:
+                st = self.static_test(v) if isinstance(v, (ast.Call, ast.Compare, ast.UnaryOp, ast.Constant)) else None
+                if st is None:
+                    keep.append(v)
+                    continue
+                if isinstance(e.op, ast.And) and st is False or isinstance(e.op, ast.Or) and st is True:
+                    decided = st
+                    break
+            if decided is not None and not keep:
+                return Val('true' if decided else 'false', 'Bool')
+            if decided is None and len(keep) < len(e.values):
+                if not keep:
+                    return Val('true' if isinstance(e.op, ast.And) else 'false', 'Bool')
+                e = keep[0] if len(keep) == 1 else ast.BoolOp(op=e.op, values=keep)
+                return self._expr(e)
         if isinstance(e, ast.BoolOp) and self.has_optional_test(e):
             # `x is not None and x.f()` as a value: the same narrowing as in an `if` test
             return Val('(' + self.branch(e, lambda tr: 'true', lambda tr: 'false') + ')', 'Bool')
@@ -803,6 +827,9 @@ class FnTr:
             return Val('(' + ' ++ '.join(parts) + ')', 'List ' + typ)
         if isinstance(e, ast.Subscript):
             v = self.expr(e.value)
+            if v.typ.startswith('Prod ') and isinstance(e.slice, ast.Constant) and e.slice.value in (0, 1):
+                parts = _prod_parts(v.typ)
+                return Val(f'{v.text}.{e.slice.value + 1}', parts[e.slice.value])
             if v.typ.startswith('List '):
                 sl = e.slice
                 if isinstance(sl, ast.Slice) and sl.upper is None and sl.step is None and isinstance(sl.lower, ast.Constant) \
@@ -980,6 +1007,14 @@ class FnTr:
 
     def list_comp(self, e):
         """`[x for x in xs if c]` -> `xs.filter`; with a test that may raise -> `xs.filterM` in `Except`"""
+        g = e.generators
+        if len(g) == 2 and not g[0].ifs and not g[1].ifs and isinstance(g[0].target, ast.Name) and isinstance(g[1].target, ast.Name) \
+                and isinstance(g[1].iter, ast.Name) and g[1].iter.id == g[0].target.id \
+                and isinstance(e.elt, ast.Name) and e.elt.id == g[1].target.id:
+            xss = self.expr(g[0].iter)            # `[x for ys in xss for x in ys]`
+            if xss.typ.startswith('List List '):
+                return Val(f'(({xss.text}).flatten)', xss.typ[5:])
+            raise Unsupported(f'flattening of {xss.typ}')
         if len(e.generators) != 1 or not isinstance(e.generators[0].target, ast.Name) or len(e.generators[0].ifs) != 1 \
                 or not (isinstance(e.elt, ast.Name) and e.elt.id == e.generators[0].target.id):
             raise Unsupported(f'`{self.inst.qual}`: comprehension other than `[x for x in xs if c]`')
@@ -1016,8 +1051,15 @@ class FnTr:
             raise Unsupported(f'{which}() over {xs.typ}')
         x = self.gensym(lname(g.generators[0].target.id))
         inner = self.sub()
+        inner.fresh = self.fresh
         inner.env[g.generators[0].target.id] = Val(x, xs.typ[5:], path=g.generators[0].target.id)
         c = inner.truth(inner.expr(g.elt))
+        if inner.pending:
+            body = inner.wrap(inner.ok(c))
+            self.fresh = inner.fresh
+            v = Val(f'(GV.Py.{which}E (fun {x} => (show Except String Bool from\n{_indent(body, 4)})) {_paren(xs.text)})', 'Bool')
+            v.raises = True
+            return v
         self.fresh = inner.fresh
         return Val(f'(({xs.text}).{which} (fun {x} => {c}))', 'Bool')
 
